@@ -66,6 +66,9 @@ const CFG_WHITELIST: &[(&str, &str, &str)] = &[
     ("rounding.rs", "fn:round_down", CFGATTR_INLINE),
 ];
 
+/// the statements dropped by rule 12, as they are today: (file, function, token text)
+const NIGHTLY_STMTS: &[(&str, &str, &str)] = &[("number.rs", "try_fast_path", "#[cfg(feature=\"nightly\")]let_cw=set_precision::<F>();")];
+
 /// the imports present today: (file, path).  Every `use` leaf must be one of these: an import can
 /// change what a name means (C-USE), and a trait import can change what a method call means.
 const USE_WHITELIST: &[(&str, &str)] = &[
@@ -147,6 +150,7 @@ const USE_WHITELIST: &[(&str, &str)] = &[
     ("table.rs", "crate::table_lemire::*"),
     ("table.rs", "crate::table_small::*"),
     ("front_etc", "std::io::prelude::*"),
+    ("front_rand", "std::io::prelude::*"),
     ("front_etc", "std::path::PathBuf"),
     ("front_etc", "std::env"),
     ("front_etc", "std::fs"),
@@ -366,6 +370,10 @@ fn use_leaves(t: &syn::UseTree, prefix: &str, out: &mut Vec<Leaf>) {
 struct Pre<'a> {
     fname: &'a str,
     known: &'a Known,
+    /// Some(targets): a file of which only these functions are translated and whose other items
+    /// (test drivers, serde structs, ..) are only checked as far as they could shadow a name that
+    /// the targets use (the rng / rand / unit front-ends)
+    lenient: Option<&'a [&'a str]>,
     is_lib_rs: bool,
     problems: Vec<String>,
     approved: HashSet<*const syn::Attribute>,
@@ -413,8 +421,17 @@ impl<'a> Pre<'a> {
         }
     }
 
-    /// rules 12 / 21: `#[cfg(feature = "nightly")] let ..;` and `#[cfg([not](feature = "compact"))]`
-    /// on a `return ..;` / `{ .. }` statement are understood by the lowering
+    /// is the visitor inside one of the target functions of a lenient file (or is the file strict)
+    fn strict_here(&self) -> bool {
+        match self.lenient {
+            None => true,
+            Some(ts) => self.fns.first().map(|(n, _)| ts.contains(&n.as_str())).unwrap_or(false),
+        }
+    }
+
+    /// rules 12 / 21: `#[cfg([not](feature = "compact"))]` on a `return ..;` / `{ .. }` statement is
+    /// understood by the lowering; the statements that rule 12 DROPS (`#[cfg(feature = "nightly")]
+    /// let ..;`) must be today's, token for token (NIGHTLY_STMTS)
     fn approve_stmt(&mut self, st: &syn::Stmt) {
         let (attrs, kind): (&[syn::Attribute], &str) = match st {
             syn::Stmt::Local(l) => (&l.attrs, "let"),
@@ -428,7 +445,13 @@ impl<'a> Pre<'a> {
         for a in attrs {
             if attr_name(a) == "cfg" {
                 let t = attr_text(a);
-                let ok = if kind == "let" { t == NIGHTLY } else { t == C || t == NC };
+                let ok = if kind == "let" {
+                    let cur = self.fns.last().map(|(n, _)| n.as_str()).unwrap_or("");
+                    let text = nospace(&st.to_token_stream().to_string());
+                    t == NIGHTLY && NIGHTLY_STMTS.iter().any(|(f, func, x)| *f == self.fname && *func == cur && *x == text)
+                } else {
+                    t == C || t == NC
+                };
                 if ok {
                     self.approved.insert(a as *const _);
                 }
@@ -455,6 +478,23 @@ impl<'a> Pre<'a> {
         use_leaves(&u.tree, "", &mut leaves);
         for l in leaves {
             let path = format!("{}{}", lead, l.path);
+            if self.lenient.is_some() {
+                // only imports that could shadow a name the targets use: globs (they shadow the
+                // prelude) unless whitelisted, and guarded names
+                match &l.name {
+                    None => {
+                        if !USE_WHITELIST.iter().any(|(f, p)| *f == self.fname && *p == path) {
+                            self.problem(u.span(), format!("glob import `{}`: what it brings into scope is not checked", path));
+                        }
+                    }
+                    Some(n) => {
+                        if n != "_" && (RESERVED.contains(&n.as_str()) || self.known.home.contains_key(n)) {
+                            self.problem(u.span(), format!("import `{}` introduces `{}`, a name that the translated functions use", path, n));
+                        }
+                    }
+                }
+                continue;
+            }
             if !(l.renamed) && !USE_WHITELIST.iter().any(|(f, p)| *f == self.fname && *p == path) {
                 self.problem(u.span(), format!("unexpected import `{}`: it could change what a name or a method call means", path));
                 continue;
@@ -485,6 +525,11 @@ impl<'a> Pre<'a> {
     }
 
     fn check_impl(&mut self, im: &syn::ItemImpl) {
+        if self.lenient.is_some() {
+            // the targets only call inherent methods of primitive / std types and each other: a
+            // local impl cannot change those
+            return;
+        }
         let tr = match &im.trait_ {
             None => String::new(),
             Some((bang, p, _)) => format!("{}{}", if bang.is_some() { "!" } else { "" }, nospace(&p.to_token_stream().to_string())),
@@ -543,6 +588,11 @@ impl<'a> Pre<'a> {
 impl<'a, 'ast> Visit<'ast> for Pre<'a> {
     fn visit_attribute(&mut self, a: &'ast syn::Attribute) {
         let n = attr_name(a);
+        // lenient files: outside the target functions only attributes that can hide or duplicate
+        // a definition matter
+        if !self.strict_here() && !matches!(n.as_str(), "cfg" | "cfg_attr" | "path") {
+            return;
+        }
         if HARMLESS_ATTRS.contains(&n.as_str()) || n.starts_with("rustfmt::") {
             return;
         }
@@ -656,7 +706,9 @@ impl<'a, 'ast> Visit<'ast> for Pre<'a> {
                 if !(self.is_lib_rs && m.content.is_none()) || RESERVED.contains(&m.ident.to_string().as_str()) {
                     self.defines(m.ident.span(), &m.ident.to_string(), "module");
                 }
-                if m.content.is_some() {
+                if self.lenient.is_some() {
+                    // a module keeps its items to itself (glob imports are refused, its name is guarded)
+                } else if m.content.is_some() {
                     self.problem(m.span(), format!("inline module `{}` (its items and imports are not checked)", m.ident));
                 } else if !self.is_lib_rs {
                     self.problem(m.span(), format!("module declaration `mod {};` outside lib.rs", m.ident));
@@ -664,7 +716,10 @@ impl<'a, 'ast> Visit<'ast> for Pre<'a> {
             }
             I::ExternCrate(e) => {
                 self.approve(&e.attrs, &format!("extern:{}", e.ident));
-                let ok = e.rename.is_none() && ((self.is_lib_rs && e.ident == "alloc") || (self.fname.starts_with("front_") && e.ident == "minimal_lexical"));
+                let ok = e.rename.is_none()
+                    && ((self.is_lib_rs && e.ident == "alloc")
+                        || (self.fname.starts_with("front_") && e.ident == "minimal_lexical")
+                        || (self.lenient.is_some() && !RESERVED.contains(&e.ident.to_string().as_str())));
                 if !ok {
                     self.problem(e.span(), format!("unexpected `extern crate {}`", e.ident));
                 }
@@ -675,7 +730,9 @@ impl<'a, 'ast> Visit<'ast> for Pre<'a> {
                     // C-MACRO: only today's macros, in today's files (none in lib.rs: a macro
                     // defined there is in textual scope of every later module)
                     let name = m.ident.as_ref().map(|i| i.to_string()).unwrap_or_default();
-                    if !MACROS.iter().any(|(f, n)| *f == self.fname && *n == name) {
+                    // (lenient files: the targets may not invoke any macro of the file - the
+                    // lowering has no macro table for them)
+                    if self.lenient.is_none() && !MACROS.iter().any(|(f, n)| *f == self.fname && *n == name) {
                         self.problem(m.span(), format!("unexpected `macro_rules! {}` (macros are looked up per file and by name)", name));
                     }
                     if let Some(id) = &m.ident {
@@ -911,9 +968,15 @@ fn duplicates(fname: &str, file: &syn::File, problems: &mut Vec<String>) {
 
 /// The pre-pass over one source file.  Returns the problems found (empty: the file is fine).
 pub fn check_file(fname: &str, file: &syn::File, known: &Known) -> Vec<String> {
+    check_file_mode(fname, file, known, None)
+}
+
+/// `lenient` = Some(target function names): see `Pre::lenient`
+pub fn check_file_mode(fname: &str, file: &syn::File, known: &Known, lenient: Option<&[&str]>) -> Vec<String> {
     let mut p = Pre {
         fname,
         known,
+        lenient,
         is_lib_rs: fname == "lib.rs",
         problems: vec![],
         approved: HashSet::new(),
@@ -1024,6 +1087,10 @@ impl<'a, 'ast> Visit<'ast> for Unread<'a> {
 /// a module of the crate that the translator does not read (fpu.rs, libm.rs, table_bellerophon.rs)
 pub fn check_unread(fname: &str, file: &syn::File) -> Vec<String> {
     let mut u = Unread { fname, problems: vec![] };
+    if fname == "fpu.rs" && !file.attrs.iter().any(|a| attr_text(a) == NIGHTLY) {
+        // rule 12 drops the statement that calls into it
+        u.problems.push("fpu.rs is no longer gated by `#![cfg(feature = \"nightly\")]`".into());
+    }
     u.visit_file(file);
     u.problems
 }
